@@ -136,6 +136,7 @@ type EventRec struct {
 	Returned int `json:"returned"` // step at which the call returned (-1 pending)
 	PendingAtEnd bool `json:"pending_at_end,omitempty"` // the call had not returned at the final snapshot
 	FramesDelivered int `json:"frames_delivered"`
+	CapBlocked [2]bool `json:"cap_blocked,omitempty"` // some carrier SendMsg was parked on the capacity bound when the event fired, per direction (C2S, S2C)
 	Note string `json:"note,omitempty"`
 }
 
